@@ -1,5 +1,5 @@
 # C07 - undefined-variable and unused-local warnings agree with the actual bindings (DESIGN 5, binder family)
-import random, re
+import json, random, re
 import vlib
 from vlib import Leg, hexs
 
@@ -312,8 +312,40 @@ def render(lines, rng, style):
     return text
 
 
-def case_of(files):
-    return " ".join("F:%s:%s" % (hexs(p.encode()), hexs(t.encode())) for p, t in files) + " S:diags"
+def case_of(files, conf=None):
+    """conf = None (client-flag mode) or {"f": [(File text, [names])], "m": [names], "l": [names]}: the luahelper.json route;
+    the file luahelper.json goes to the server, the same settings as G: items to the model side (ocaml/c07_run.ml)"""
+    items = ["F:%s:%s" % (hexs(p.encode()), hexs(t.encode())) for p, t in files]
+    if conf is not None:
+        js = {"IgnoreFileVars": [{"File": f, "Vars": list(ns)} for f, ns in conf.get("f", [])]}
+        if conf.get("m"):
+            js["IgnoreModules"] = list(conf["m"])
+        if conf.get("l"):
+            js["IgnoreLocalNoUseVars"] = list(conf["l"])
+        items.append("F:%s:%s" % (hexs(b"luahelper.json"), hexs(json.dumps(js).encode())))
+        hn = lambda ns: ",".join(hexs(n.encode()) for n in ns) or "-"
+        for f, ns in conf.get("f", []):
+            items.append("G:f:%s:%s" % (hexs(f.encode()), hn(ns)))
+        if conf.get("m"):
+            items.append("G:m:%s" % hn(conf["m"]))
+        if conf.get("l"):
+            items.append("G:l:%s" % hn(conf["l"]))
+    return " ".join(items) + " S:diags"
+
+
+def conf_of(case):
+    """inverse of case_of for the configuration: None when the case has no luahelper.json"""
+    if ("F:%s:" % hexs(b"luahelper.json")) not in case:
+        return None
+    unh = lambda s: [bytes.fromhex(h).decode() for h in s.split(",")] if s not in ("-", "") else []
+    conf = {"f": [], "m": [], "l": []}
+    for it in case.split(" "):
+        p = it.split(":")
+        if p[0] == "G" and p[1] == "f":
+            conf["f"].append((bytes.fromhex(p[2]).decode(), unh(p[3])))
+        elif p[0] == "G" and p[1] in ("m", "l"):
+            conf[p[1]] += unh(p[2])
+    return conf
 
 
 FILES = ["a.lua", "b.lua", "sub/c.lua"]
@@ -336,6 +368,69 @@ def gen_diags(rng, tier):
             style = "plain" if rng.random() < 0.5 else "wild"
             files.append((FILES[j], render(pr.lines, rng, style)))
         out.append(case_of(files))
+    out += gen_conf_cases(rng, {"quick": 700, "thorough": 12000, "search": 500}[tier])
+    return out
+
+
+# the luahelper.json route: per-file ignore lists (IgnoreFileVars: the names are configured-ignored in every file whose path
+# CONTAINS the File text), entries that overlap on one file, IgnoreModules, IgnoreLocalNoUseVars.  None of the File texts
+# occurs in the path of the temporary workspace root (/tmp/lhsrv<digits>)
+CFILES = ["a.lua", "b.lua", "sub/c.lua", "sub/data.lua", "scripts/boot.lua"]
+CPATS = ["a.lua", ".lua", "sub/", "c.lua", "b.lu", "/sub", "lua", "/a.lua", "data.lua", "scripts/", "boot.lua", "ta.lu", "b.lua",
+         "sub/c.lua", "s/boot", "a.l", "scripts/boot.lua", "/"]
+CNAMES = UNDEF * 3 + GLOBALS + ["a", "x", "k", "print", "jit", "engine_api", "boot_hook"]
+
+
+def gen_conf_cases(rng, n):
+    out = []
+    # the shape of the report: a directory entry and a file entry match one file, each lists one name the file reads
+    out.append(case_of([("scripts/boot.lua", "print(engine_api)\nprint(boot_hook)\nprint(real_undefined)\n"),
+                        ("scripts/other.lua", "print(engine_api)\nprint(boot_hook)\n")],
+                       {"f": [("scripts/", ["engine_api"]), ("boot.lua", ["boot_hook"])]}))
+    out.append(case_of([("sub/data.lua", "zz()\nlocal k = undef1\nprint(k, Missing)\n"), ("a.lua", "zz(undef1)\n")],
+                       {"f": [("a.lua", ["zz"]), ("data.lua", ["undef1"]), ("sub/", ["Missing"])]}))
+    for _ in range(n):
+        nf = rng.choice([1, 2, 2, 3])
+        paths = rng.sample(CFILES, nf)
+        gl = list(GLOBALS)
+        rng.shuffle(gl)
+        pools = [gl[j * 2:j * 2 + 3] for j in range(nf)]
+        pats = rng.sample(CPATS, rng.choice([1, 2, 2, 3, 4]))
+        if rng.random() < 0.6:
+            # make sure two entries match one of the files
+            p0 = rng.choice(paths)
+            m = [q for q in CPATS if q in "/" + p0]
+            pats = list(dict.fromkeys(rng.sample(m, min(len(m), rng.choice([2, 2, 3]))) + pats))[:4]
+        conf = {"f": [(q, list(dict.fromkeys(rng.choice(CNAMES) for _ in range(rng.choice([1, 1, 2, 3]))))) for q in pats],
+                "m": [], "l": []}
+        if rng.random() < 0.3:
+            conf["m"] = list(dict.fromkeys(rng.choice(CNAMES) for _ in range(rng.choice([1, 2]))))
+        if rng.random() < 0.3:
+            conf["l"] = list(dict.fromkeys(rng.choice(LOCALS) for _ in range(rng.choice([1, 2, 3]))))
+        listed = [x for _, ns in conf["f"] for x in ns] + conf["m"]
+        files = []
+        for j in range(nf):
+            other = [g for i, p in enumerate(pools) if i != j for g in p]
+            pr = Prog(rng, pools[j], other, rng.choice([2, 4, 8]))
+            pr.block([], rng.choice([1, 2, 3]), True, False, False)
+            # reads (and a few writes) of the listed names at the top level of every file
+            for _ in range(rng.choice([1, 2, 3, 4])):
+                nm = rng.choice(listed)
+                k = rng.random()
+                if k < 0.4:
+                    pr.emit(["print", "(", nm, ")"])
+                elif k < 0.6:
+                    pr.emit([nm, "(", ")"])
+                elif k < 0.75:
+                    pr.emit(["local", rng.choice(LOCALS), "=", nm])
+                elif k < 0.85:
+                    pr.emit(["if", nm, "then", "print", "(", rng.choice(listed), ")", "end"])
+                elif k < 0.93:
+                    pr.emit(["function", rng.choice(pools[j]), "(", ")", "return", nm, "end"])
+                else:
+                    pr.emit([nm, "=", rng.choice(["1", nm, rng.choice(listed)])])
+            files.append((paths[j], render(pr.lines, rng, "plain" if rng.random() < 0.7 else "wild")))
+        out.append(case_of(files, conf))
     return out
 
 
@@ -367,15 +462,25 @@ def parse_case(case):
 
 
 def shrink(case):
-    files = [(p, c.decode("latin1")) for p, c in parse_case(case)]
+    conf = conf_of(case)
+    files = [(p, c.decode("latin1")) for p, c in parse_case(case) if p != "luahelper.json"]
     if len(files) > 1:
         for i in range(len(files)):
-            yield case_of([(p, c) for j, (p, c) in enumerate(files) if j != i])
+            yield case_of([(p, c) for j, (p, c) in enumerate(files) if j != i], conf)
     for i, (p, c) in enumerate(files):
         lines = c.split("\n")
         for j in range(len(lines)):
             nc = "\n".join(lines[:j] + lines[j + 1:])
-            yield case_of([(q, nc if k == i else d) for k, (q, d) in enumerate(files)])
+            yield case_of([(q, nc if k == i else d) for k, (q, d) in enumerate(files)], conf)
+    if conf is not None:
+        for key in ("m", "l"):
+            if conf[key]:
+                yield case_of(files, dict(conf, **{key: []}))
+        for i, (f, ns) in enumerate(conf["f"]):
+            yield case_of(files, dict(conf, f=conf["f"][:i] + conf["f"][i + 1:]))
+            for j in range(len(ns)):
+                if len(ns) > 1:
+                    yield case_of(files, dict(conf, f=conf["f"][:i] + [(f, ns[:j] + ns[j + 1:])] + conf["f"][i + 1:]))
 
 
 def describe(case):
@@ -413,4 +518,5 @@ TRUSTED = vlib.TRUSTED_COMMON + [
 def main(tier, seed):
     return vlib.standard_main("C07", LEGS, tier, seed, trusted=TRUSTED,
                               assumptions=["core fragment only (in_fragment): no tables, indexing, methods, self, _G, require, goto; "
-                                           "single-target assignments; client-flag configuration mode with all checks enabled"])
+                                           "single-target assignments; all checks enabled; configuration: client flags, and the luahelper.json route with "
+                                           "IgnoreFileVars (overlapping entries), IgnoreModules, IgnoreLocalNoUseVars (name sets per file)"])
